@@ -9,6 +9,7 @@ position, so the number of stored nodes with a larger bit position strictly decr
 -/
 namespace AlgoVerif.C06
 variable {V : Type}
+open BitString (xbit Small)
 
 namespace Patricia
 
@@ -68,7 +69,7 @@ theorem searchLoop_total {t : Patricia V} (hc : Closed t) (key : BitString) (f p
       have hlt := above_lt hn hgt
       obtain ⟨l, hl, hl2⟩ := hc.left j _ hn
       obtain ⟨hr1, hr2⟩ := hc.right j _ hn
-      cases hb : kbit key (t.nodes[j].bp - 1)
+      cases hb : xbit key (t.nodes[j].bp - 1)
       · simp only [Bool.false_eq_true, if_false, hl]
         exact ih _ l hl2 (by omega)
       · simp only [if_true]
